@@ -201,6 +201,9 @@ func (c *evalCtx) truth(v SQLVal) (Term, Term) {
 }
 
 func (c *evalCtx) eval(x *SQLExpr) SQLVal {
+	if x.Op == "cast" && len(x.Args) == 1 {
+		return c.eval(x.Args[0])
+	}
 	switch x.Op {
 	case "num":
 		var n int64
